@@ -257,3 +257,43 @@ def run(ctx, rep):
         bad_ = [(fn_, c.callee, c.line) for fn_, c in wakes if 'broadcast' not in c.callee]
         rep.check(bool(wakes) and not bad_, 'R-C13-3b', 'io->%s (waited on by %s in every worker) is woken only by broadcast' % (cond, sorted(set(waiters))), wakes[0][1].loc() if wakes else 'cmdline/io.c',
                   '%d wake sites, all broadcast' % len(wakes) if not bad_ else 'woken with a single-thread signal in %s: workers with a pending task can stay asleep (hang with short rings)' % bad_, function=bad_[0][0] if bad_ else 'io', construct='broadcast %s' % cond)
+
+    # ring arithmetic: the ring may have any size in IO_MIN..IO_MAX (--test-io-cache, large block sizes give non powers of two):
+    # every index that advances along the ring wraps with `% io->io_max`, the same way in the main thread and in the workers
+    rep.rule('R-C13-8', 'every ring index advance in io.c is (index + 1) % io->io_max: no masking or other wrap that agrees only for some ring sizes', 6)
+    nwrap = 0
+    for f in P.defined():
+        if not (f.file or '').endswith('cmdline/io.c'):
+            continue
+        for i in f.all_insts():
+            # values stored into / compared with a ring index: index fields and locals named *_index are fed by (x + 1) <op> <something with io_max>
+            if i.op in ('urem', 'and', 'srem', 'udiv', 'select') and any('io_max' in f.expr(o) for o in i.ops):
+                a0 = f.inst_of(i.ops[0])
+                adv = a0 is not None and a0.op == 'add' and f.const_of(a0.ops[1]) == 1 and 'index' in f.expr(a0.ops[0])
+                if not adv:
+                    continue
+                nwrap += 1
+                ok = i.op == 'urem' and f.expr(i.ops[1]).endswith('io->io_max')
+                rep.check(ok, 'R-C13-8', '%s: %s' % (base(f.name), f.expr(['i', i.id])), i.loc(), 'wraps with %% io->io_max' if ok else 'the index wraps with `%s`: it agrees with %% io_max only for some ring sizes (a lost wake-up / wrong slot for the others)' % f.expr(['i', i.id]),
+                          function=base(f.name), construct='ring wrap')
+    if nwrap < 6:
+        raise AnalysisBroken('io.c: ring index advances not recognised (%d)' % nwrap)
+    # the errors the writers accumulate are handed to the caller once: whichever engine is installed, the accumulator is cleared
+    # between two reports (mono clears in its preset, the ring in its next)
+    rep.rule('R-C13-6e', 'writer error accumulator io->writer_error[] is zeroed between two reports in both engines (preset/next pair of each mode)', 2)
+    slots = P.slots()
+    pres = sorted(slots.get('g:io_write_preset', ())); nxts = sorted(slots.get('g:io_write_next', ()))
+    modes = {}
+    for fn in pres + nxts:
+        modes.setdefault(fn.rsplit('_', 1)[-1], []).append(fn)
+    if len(modes) < 2 or not all(len(v) == 2 for v in modes.values()):
+        raise AnalysisBroken('io_write_preset / io_write_next implementations not paired by mode: %s' % modes)
+    for mode, fns in sorted(modes.items()):
+        zero = []; rd = []
+        for fn in fns:
+            g = P.fn(fn)
+            rep.analysed(g)
+            zero += [i for i in g.all_insts() if i.op == 'store' and 'writer_error[' in g.expr(i.ops[1]) and 'io->' in g.expr(i.ops[1]) and g.const_of(i.ops[0]) == 0]
+            rd += [i for i in g.all_insts() if i.op == 'load' and 'io->writer_error[' in g.expr(['i', i.id])]
+        rep.check(bool(zero) and bool(rd), 'R-C13-6e', '%s engine: reported errors are cleared' % mode, P.fn(fns[0]).file, '%d report sites, %d clearing sites' % (len(rd), len(zero)) if zero else 'the accumulator is reported but never cleared: one write error is counted again at every later stripe (the ring hits the error limit, the single-thread engine does not)',
+                  function=fns[-1], construct='writer_error cleared (%s)' % mode)
